@@ -28,8 +28,15 @@ def ts_jobs(tier):
         ops = ["enq0", "enq1", "start", "await0", "await1"]
         for k in (2, 3):
             base = {"max": mx, "min": mn, "tasks": ["gate0", "open0"], "clients": [ops],
-                    "props": ["exactly_once", "bounded", "nodeadlock"], "window_at": k, "twin_prog": "progress"}
+                    "props": ["exactly_once", "bounded", "nodeadlock", "min_workers"], "window_at": k, "twin_prog": "progress"}
             out.append((dict(base, name="c10-prequeued-max{0}min{1}-op{2}".format(mx, mn, k)), full if mx <= 2 else dict(full, depth=14)))
+    # one task queued before start() on a pool with min_threads > 1: start() must still bring up min_threads workers
+    for mx, mn in [(2, 2), (3, 2)] + ([(3, 3)] if thorough else []):
+        ops = ["enq0", "start", "open0", "await0", "stop"]
+        for k in (1, 2):
+            base = {"max": mx, "min": mn, "tasks": ["gate0"], "clients": [ops], "W": mx + 1,
+                    "props": ["exactly_once", "bounded", "min_workers", "nodeadlock"], "window_at": k, "twin_prog": "progress"}
+            out.append((dict(base, name="c10-prestart-min-max{0}min{1}-op{2}".format(mx, mn, k)), full if mx <= 2 else dict(full, depth=14)))
     # three mutually dependent tasks need three workers
     if thorough:
         ops = ["start", "enq0", "enq1", "enq2", "await0", "await1", "await2"]
